@@ -189,9 +189,25 @@ def run(ctx):
             pe = [e for e in sp.events if e.callee in pop_fns and sp.variant_of(e.res) == ("None",)]
             if (sp.ret_variant() or ("?",))[0] == "Rejected":
                 n_rej += 1
-                colder = [a for a in sp.atoms if a[0] == "bool" and mentions(a[1], lambda s_: s_[0] == "field" and s_[2] == "estimated_frequency")]
-                if not pe and not colder and unforced is None:
-                    unforced = sp.show()[:300]
+                pops_ = sorted([e for e in sp.events if e.callee in pop_fns], key=lambda e_: e_.seq)
+                last_pop = pops_[-1].seq if pops_ else -1
+                est_ = lambda x_: mentions(x_, lambda s_: s_[0] == "field" and s_[2] == "estimated_frequency")
+
+                def is_colder(a):
+                    # the comparison of the incoming estimate with the estimate of the victim popped last, on its "incoming is colder" side
+                    if a[0] != "bool" or a[4] < last_pop or a[1][0] != "binop" or a[1][1] not in ("Lt", "Le", "Gt", "Ge"):
+                        return False
+                    op, x_, y_ = a[1][1], a[1][2], a[1][3]
+                    if op in ("Lt", "Ge") and est_(y_) and not est_(x_):       # inc < vic  /  inc >= vic
+                        return a[2] == (op == "Lt")
+                    if op in ("Gt", "Le") and est_(x_) and not est_(y_):       # vic > inc  /  vic <= inc
+                        return a[2] == (op == "Gt")
+                    return False
+                # (two iterations pop through the same expression: take the outcome established right after the last pop)
+                after_ = sorted([a for a in sp.atoms if a[0] == "enum" and pops_ and a[4] > last_pop and strip_site(a[1]) == strip_site(pops_[-1].res)], key=lambda a: a[4])
+                exhausted = bool(after_) and after_[0][2] == ("None",)
+                if not exhausted and not any(is_colder(a) for a in sp.atoms) and unforced is None:
+                    unforced = "%s; after the last victim was taken: %s" % (sp.show()[:120], "; ".join("%s=%s" % (fmt(a[1])[:90], a[2]) for a in sp.atoms if a[4] >= last_pop)[:400])
             if not pe:
                 continue
             q = [a for a in sp.atoms if a[0] == "bool" and M.is_query_field(a[1], w, "1") and a[4] > pe[-1].seq]
@@ -201,6 +217,17 @@ def run(ctx):
         # the converse of colder-incoming-rejected: the loop gives up *only* for those two reasons.  Any other refusal (a
         # shortcut judging from the first sample, a cap on the number of victims) rejects a put for which evicting one key
         # after the other would have made room
+        # the same on the control-flow graph, blind to values (a refusal behind a counter - "at most five victims" - lies
+        # beyond the two loop iterations the symbolic paths unroll): every CFG path returning Rejected takes the comparison's
+        # "colder" edge or the empty-sample edge
+        from core import variant_edges_of
+        none_edges = {(b_, t_) for n_, (b_, t_) in variant_edges_of(f, f.origin_call(pb, pt)) if n_ == "None"}
+        for p in enum_paths(f):
+            r = path_return(f, p)
+            if r[0] == "agg" and r[2] == "Rejected":
+                es = set(zip(p, p[1:]))
+                if (cb, c_true) not in es and not (es & none_edges) and unforced is None:
+                    unforced = "a control-flow path returns Rejected through neither the comparison's colder edge nor the empty-sample edge: %s" % f.where(p[-2] if len(p) > 1 else p[-1])
         ctx.check(unforced is None and n_rej >= 1, "R06.2", "%s|rejects-only-when-colder-or-exhausted" % en,
                   "every Rejected result of the eviction loop follows either the comparison with a victim's estimate or a sample that ran empty", f.where(),
                   unforced or "%d rejecting path(s)" % n_rej)
